@@ -342,7 +342,8 @@ class _XSLibrary:
     def _mergeNeutronEnergies(self, other):
         self.neutronEnergyUpperBounds = other.neutronEnergyUpperBounds
         # neutron velocity changes, but just use the first one.
-        if not hasattr(self, "_neutronVelocity"):
+        # a library without neutron data (GAMISO, PMATRX) carries None here, which must not count as "the first one"
+        if getattr(self, "_neutronVelocity", None) is None:
             self.neutronVelocity = other.neutronVelocity
 
     def items(self):
